@@ -12,18 +12,21 @@ SHAPES = {'laddr': (2, 0, 5), 'bt': (2, 1, 5), 'jmp': (2, 2, 5), 'switch': (2, 3
 
 def jobs(tier):
     J = []
-    for nm, (ni, a, b) in SHAPES.items():
+    shapes = dict(SHAPES)
+    if tier == 'thorough':
+        shapes.update({'laddr+bt': (3, 0, 1), 'switch+jmp': (3, 3, 2)})  # a label and two instructions
+    for nm, (ni, a, b) in shapes.items():
         for part in ('duplicate', 'restore'):
             d = {'NDEBUG': None, 'NI': ni, 'K1': a, 'K2': b}
             if part == 'restore':
-                if nm not in ('laddr', 'switch'):
+                if nm not in ('laddr', 'switch', 'laddr+bt'):
                     continue  # restore does not look inside instructions: two shapes are enough
                 d['VP_RESTORE_ONLY'] = None
             j = Job('%s[%s]' % (part, nm), H, 'h_dup_restore', defines=d, ops=OPS, unwind=8,
                     unwindset=['redirect_duplicated_labels.0:3', 'redirect_duplicated_labels.1:%d' % ni, 'redirect_duplicated_labels.2:2',
                                '_MIR_restore_func_insns.0:3', '_MIR_restore_func_insns.1:3', '_MIR_restore_func_insns.2:2',
                                '_MIR_duplicate_func_insns.0:%d' % (ni + 1), '_MIR_duplicate_func_insns.1:2'],
-                    object_bits=10, timeout=900, solver='cadical', no_standard_checks=True, kind='bounded',
+                    object_bits=10, timeout=900 if tier == 'quick' else 2400, solver='cadical', no_standard_checks=True, kind='bounded',
                     bound='function of a label and %d instruction(s) from LADDR/BT/JMP/SWITCH/MOV, one lref; working copy of <= 2 instructions and <= 2 generator-created registers at restore' % (ni - 1),
                     scope=['vp_on_error', 'mk', 'op_same', 'unchanged', 'vp_malloc', 'vp_free', 'memcpy', 'find_rd_by_name', 'HTAB_size_t_do'])
             j.count_funcs = {'_MIR_duplicate_func_insns', '_MIR_restore_func_insns', 'store_labels_for_duplication', 'redirect_duplicated_labels',
